@@ -9,6 +9,7 @@ import N2V.Model.World
 import N2V.Lemmas.Work
 import N2V.Lemmas.LoadSched
 import N2V.Lemmas.WorldSettled
+import N2V.Lemmas.WorkSkip
 namespace N2V.C02
 open N2V N2V.Work N2V.Load
 
@@ -145,5 +146,53 @@ theorem done_steps_are_settled (e0 : Env) (inv0 : GInv e0.g) (plain : Plain e0.g
     JS e0 (Run.build (schedGraph e0.g) a (choices adopt perms fin) e0).1
       (Run.build (schedGraph e0.g) a (choices adopt perms fin) e0).2.1 :=
   build_done_js e0 inv0 plain hnd0 hc0 a adopt perms fin n h
+
+/-! ### "Never skips a step that changed": what a clean answer guarantees -/
+
+/-- **n2 never skips a step whose inputs, discovered dependencies, command, response file or
+    outputs changed or were removed.**  At any point of any invocation whose cached stat() answers
+    are truthful: if `check_build_dirty` finds a non-phony step clean (the only way a wanted step is
+    skipped), then every dirtying input, every remembered dependency and every output exists, and
+    the signature attached to the step at start-up - that of the latest record the log attributes
+    to it, `C09.remembered_by_every_later_invocation` - IS the manifest of the tree as it is now:
+    names and modification times of the dirtying inputs, of the remembered dependencies and of
+    the outputs, the command line, the response file's name and content. -/
+theorem never_skips_a_changed_step (e : Env) (hc : Coh e) (b : Nat) (bm : BuildM) (hb : buildOf e.g b = some bm)
+    (hnp : bm.cmdline.isNone = false) (hskip : (checkDirty e b).1 = some false) :
+    (∀ f ∈ bm.dirtying ++ discOf e b ++ bm.outs, (mtimeOf e f).isSome = true) ∧
+    assocGet e.hashes b = some (manifestFs e bm b) :=
+  let u := clean_means_upToDate e hc b bm hb hnp hskip
+  ⟨u.present, u.recorded⟩
+
+/-- Contrapositive, piece by piece: any difference between the recorded signature and the tree
+    (a touched input or dependency, an edited command line, different response-file content, a
+    touched output), a removed file, or no record at all means the step is NOT found clean. -/
+theorem changed_step_is_not_clean (e : Env) (hc : Coh e) (b : Nat) (bm : BuildM) (hb : buildOf e.g b = some bm)
+    (hnp : bm.cmdline.isNone = false)
+    (hchg : (∃ f ∈ bm.dirtying ++ discOf e b ++ bm.outs, mtimeOf e f = none) ∨
+            assocGet e.hashes b = none ∨
+            (∃ h, assocGet e.hashes b = some h ∧
+              (h.cmd ≠ bm.cmdline.getD [] ∨ h.rsp ≠ bm.rspfile ∨
+               h.ins ≠ bm.dirtying.map (fun f => (fileName e.g f, (mtimeOf e f).getD 0)) ∨
+               h.disc ≠ (discOf e b).map (fun f => (fileName e.g f, (mtimeOf e f).getD 0)) ∨
+               h.outs ≠ bm.outs.map (fun f => (fileName e.g f, (mtimeOf e f).getD 0))))) :
+    (checkDirty e b).1 ≠ some false := by
+  intro hskip
+  obtain ⟨hp, hr⟩ := never_skips_a_changed_step e hc b bm hb hnp hskip
+  rcases hchg with ⟨f, hf, hm⟩ | hn | ⟨h, hh, hd⟩
+  · have := hp f hf; rw [hm] at this; cases this
+  · rw [hn] at hr; cases hr
+  · rw [hh] at hr
+    have : h = manifestFs e bm b := Option.some.inj hr
+    subst this
+    rcases hd with h | h | h | h | h <;> exact h rfl
+
+/-- With the generated inputs already stat()ed (they are: their producers finished first, C01),
+    clean and up to date are the same thing. -/
+theorem clean_iff_up_to_date (e : Env) (hc : Coh e) (b : Nat) (bm : BuildM) (hb : buildOf e.g b = some bm)
+    (hnp : bm.cmdline.isNone = false)
+    (hgen : ∀ f ∈ bm.dirtying ++ discOf e b, (fileInput e.g f).isSome = true → Cached e f) :
+    (checkDirty e b).1 = some false ↔ UpToDate e b bm :=
+  ⟨clean_means_upToDate e hc b bm hb hnp, fun u => (checkDirty_upToDate e b bm hb hc u hgen).1⟩
 
 end N2V.C02
